@@ -126,23 +126,36 @@ def main():
     # ---- 4. correspondence (inside Coq)
     bad, maxdev, errors = [], 0.0, []
     n_corr = 0
+    bad_by = {}
     if build_ok:
-        texts, index = [], []
+        groups = {}
         for i, (case, res) in enumerate(zip(cases, results)):
             enc = mod.to_coq(case, res)
             if enc is None:
                 continue
             for e in (enc if isinstance(enc, list) else [enc]):
-                texts.append(C.coq_case(*e))
-                index.append(i)
-        n_corr = len(texts)
-        if texts:
-            b, maxdev, errors = C.run_coq_cases(pid, mod.CHECKER, texts, shard=getattr(mod, "SHARD", 250))
-            bad = sorted(set(index[j] for j in b))
+                # an entry is either the 4-tuple for mod.CHECKER or (checker_name, 4-tuple)
+                if len(e) == 2 and isinstance(e[0], str):
+                    chk, e = e
+                else:
+                    chk = mod.CHECKER
+                g = groups.setdefault(chk, ([], []))
+                g[0].append(C.coq_case(*e))
+                g[1].append(i)
+        for chk, (texts, index) in sorted(groups.items()):
+            n_corr += len(texts)
+            b, md, errs = C.run_coq_cases(pid, chk, texts, shard=getattr(mod, "SHARD", 250), tag="corr_" + chk)
+            bad_by.setdefault(chk, sorted(set(index[j] for j in b)))
+            if not (md <= maxdev):
+                maxdev = md
+            errors.extend(errs)
+        bad = sorted(set(i for v in bad_by.values() for i in v))
         if errors:
             broken.append("correspondence could not be evaluated: " + "; ".join(errors)[:800])
         if bad:
-            broken.append("correspondence %s disagrees with the implementation on %d of %d cases (first: case %d)" % (mod.CHECKER, len(bad), n_corr, bad[0]))
+            for chk, v in sorted(bad_by.items()):
+                if v:
+                    broken.append("correspondence Exec.%s disagrees with the implementation on %d cases (first: case %d)" % (chk, len(v), v[0]))
 
     # ---- 5. verdict
     viol_lines, known_lines = [], []
@@ -222,7 +235,7 @@ def main():
         "coverage": {
             "obligations": max(1, obligations), "discharged": discharged,
             "theorems": theorems,
-            "checker_cmd": "make -C /verif/coq && coqc -R coq/theories PyStoG coq/theories/props/%s.v  (kernel re-check of every theorem + Print Assumptions); correspondence: coqc on build/cases/%s/*.v (vm_compute of Exec.%s)" % (pid, pid, mod.CHECKER),
+            "checker_cmd": "make -C /verif/coq && coqc -R coq/theories PyStoG coq/theories/props/%s.v  (kernel re-check of every theorem + Print Assumptions); correspondence: coqc on build/cases/%s/*.v (vm_compute of Exec.%s)" % (pid, pid, "/".join(sorted(bad_by)) or getattr(mod, "CHECKER", "?")),
             "trusted_base": [
                 "Coq 8.16.1 kernel incl. vm_compute and primitive floats (no native_compute, no extraction)",
                 "axioms reported by Print Assumptions: " + ", ".join(ax.get("axioms", []) or ["(none)"]),
